@@ -143,6 +143,10 @@ def o4(W, ob):
         c3 = every_disjunct_has(g, lambda a: match_lin(a, [(exact('self.prediction.frame'), 1)], neq=-1))
         val = key(cx.expr_rvalue(w['site'].rv))
         c4 = val == 'arg3'
+        # "whenever": apart from assertions, nothing else may condition the marker
+        eg = W.guards(f).essential_guard(w['bb'])
+        c5 = all(len(c) == 3 for c in eg)
+        c1 = c1 and c5
         ob.check(c1 and c2 and c3 and c4, 'add_input_by_frame|marker-store',
                  'the misprediction marker is set only when unset, while predicting, on a mismatch, to the frame added',
                  'misprediction marker store: unset-check=%s mismatch-check=%s predicting-check=%s value=%s (expected the '
@@ -501,6 +505,8 @@ OBLIGATIONS = [
      'first_incorrect_frame == NULL (all requested frames compared); InputQueue::input records every request.', o4b),
     ('C01.O2b', 'a rollback resets every queue', 'SyncLayer::reset_prediction calls InputQueue::reset_prediction for every player unconditionally, which clears the '
      'three prediction fields.', o2b),
+    ('C01.O8', 'every resimulated frame is saved again (= C02.O6)', 'see C02.O6: a later rollback must resume from the corrected state, not from a cell written on the '
+     'abandoned timeline', lambda W, ob: __import__('rules.c02', fromlist=['o6']).o6(W, ob)),
     ('C01.O5', 'send/rollback before discard', 'set_last_confirmed_frame is preceded by the rollback step and the '
      'spectator broadcast, receives the confirmed frame, and discards only below it, capped by the last requested '
      'frame.', o5),
